@@ -161,6 +161,27 @@ impl<T: Elem + SatisfyTraits<Tr>, M: MX, Tr: TrX + ?Sized> World<T, M, Tr> {
                     Err(Caught::Panic(m)) => out.fail(Class::Vec, "unexpected-panic", format!("{m}")),
                 }
             }
+            7 | 8 => {
+                // the reverse: move the last k values out by hand (bitwise), then cut them off with set_len - which only sets the
+                // length: the moved-out values now belong to the caller and are destroyed by it, exactly once
+                let k = k.min(len);
+                if k == 0 { out.outcome.push_str("n/a"); return; }
+                let mut vals: Vec<T> = Vec::with_capacity(k);
+                let r = guarded(|| unsafe {
+                    { let t = a.downcast_ref::<T>().unwrap(); for i in 0..k { vals.push(std::ptr::read(t.as_ptr().add(len - k + i))); } }
+                    if variant == 7 { a.set_len(len - k); } else { let mut t = a.downcast_mut::<T>().unwrap(); t.set_len(len - k); }
+                });
+                match r {
+                    Ok(()) => {
+                        for (i, v) in vals.iter().enumerate() { if T::SIZE != 0 && !crate::exec::mv_match(self.ma[len - k + i], v.id()) { out.fail(Class::Vec, "wrong-element", format!("value read from slot {} has id {}, model {:?}", len - k + i, v.id(), self.ma[len - k + i])); } }
+                        self.ma.truncate(len - k);
+                        if self.a.len() != len - k { out.fail(Class::Vec, "len-mismatch", format!("set_len({}) left len {}", len - k, self.a.len())); }
+                    }
+                    Err(Caught::Injected) => out.faulted = true,
+                    Err(Caught::Panic(m)) => out.fail(Class::Vec, "unexpected-panic", format!("set_len({}) panicked: {m}", len - k)),
+                }
+                let _ = guarded(move || drop(vals));
+            }
             _ => {}
         }
         out.outcome.push_str("ok");
